@@ -19,6 +19,46 @@ namespace Res
 def isOob {α} : Res α → Bool
   | .oob _ => true
   | _ => false
+
+/-- sequencing of modelled C calls: the first failure (error return or out-of-bounds read) ends the function -/
+def bind {α β} (x : Res α) (f : α → Res β) : Res β :=
+  match x with
+  | .ok a => f a
+  | .err => .err
+  | .oob i => .oob i
+
+instance : Monad Res where
+  pure := .ok
+  bind := Res.bind
+
+/-- the modelled function performed no out-of-bounds read -/
+def NoOob {α} (r : Res α) : Prop := ∀ i, r ≠ .oob i
+
+theorem noOob_ok {α} (a : α) : NoOob (Res.ok a) := fun _ h => by cases h
+theorem noOob_err {α} : NoOob (Res.err : Res α) := fun _ h => by cases h
+theorem noOob_pure {α} (a : α) : NoOob (pure a : Res α) := noOob_ok a
+
+theorem noOob_bind {α β} (x : Res α) (f : α → Res β) (hx : NoOob x)
+    (hf : ∀ a, x = .ok a → NoOob (f a)) : NoOob (x >>= f) := by
+  intro i
+  show Res.bind x f ≠ .oob i
+  cases x with
+  | ok a => exact hf a rfl i
+  | err => intro h; cases h
+  | oob j => exact absurd rfl (hx j)
+
+@[simp] theorem bind_ok {α β} (a : α) (f : α → Res β) : (Res.ok a >>= f) = f a := rfl
+@[simp] theorem bind_err {α β} (f : α → Res β) : ((Res.err : Res α) >>= f) = .err := rfl
+@[simp] theorem bind_oob {α β} (i : Nat) (f : α → Res β) : ((Res.oob i : Res α) >>= f) = .oob i := rfl
+@[simp] theorem pure_eq {α} (a : α) : (pure a : Res α) = .ok a := rfl
+
+/-- a successful sequence: both steps succeeded -/
+theorem bind_eq_ok {α β} (x : Res α) (f : α → Res β) (b : β) :
+    (x >>= f) = .ok b ↔ ∃ a, x = .ok a ∧ f a = .ok b := by
+  cases x with
+  | ok a => simp
+  | err => simp
+  | oob j => simp
 end Res
 
 /-- closes goals of the form `Res.x = Res.y` whose content is linear arithmetic -/
